@@ -70,7 +70,14 @@ def rollout(case):
         a = rs.uniform(-1, 1, size=(B, act_size))
       elif t <= 60 or (t - 61) % 60 == 0:       # bang-bang: a fresh corner every step at first, then held for 60 steps
         a = rs.choice([-1.0, 1.0], size=(B, act_size))
-      a = a.astype(np.float32)
+      if kid == 1 and B >= 8:
+        # four members follow degenerate schedules instead: no control at all, two held corners, a small held action
+        # (a robot standing still or pressing steadily against the ground is where resting contacts are exercised)
+        a = a.copy()
+        a[0], a[1], a[2], a[3] = 0.0, 1.0, -1.0, 0.3
+        if case.get('x64'):      # the small double-precision batches: half of the members get no control at all
+          a[4:6] = 0.0
+      a = a.astype(np.float32 if not case.get('x64') else np.float64)
       pre.update(a.tobytes())
       try:
         state = step(state, jp.asarray(a))
@@ -117,7 +124,7 @@ def run(ctx):
               f'reset and step batches of {32 if q else 128} for {200 if q else 1000} steps under uniform and bang-bang (per-step and held) actions, '
               'then re-run the first rollout; the recorded events (shape/finite/unit-quaternion flags, done, state digests) '
               'are validated by the contract automaton. non-trivial = a supported pair that ran its rollouts.')
-  ctx.assumptions = ['default float32; unit quaternion tolerance 1e-4', 'determinism is checked by bit-identical state digests '
+  ctx.assumptions = ['default float32 (thorough tier adds float64 legs of the spring and positional backends, except inverted_double_pendulum whose done dtype is not scan-stable under x64); unit quaternion tolerance 1e-4', 'four batch members follow degenerate schedules (no control, held corners, small held action)', 'determinism is checked by bit-identical state digests '
                      'of a repeated rollout in the same process', 'support matrix: swimmer is generalized-only']
   cases = [{'env': e, 'backend': b, 'batch': 32 if q else 128, 'steps': 200 if q else 1000, 'seed': ctx.seed,
             'eager': (e, b) in (('inverted_pendulum', 'positional'), ('reacher', 'spring'))}
@@ -126,6 +133,14 @@ def run(ctx):
   for case, r in par.run('harness.drivers.c16', 'rollout', cases, x64=False, procs=11):
     traces.append([{k: e.get(k, -1) for k in KEYS} for e in r['events']])
     errs.append(r.get('err'))
+  if not q:
+    # double precision legs of the maximal-coordinate backends (small batches, full episode): degenerate schedules included
+    cases64 = [{'env': e, 'backend': b, 'batch': 8, 'steps': 1000, 'seed': ctx.seed + 1, 'x64': True}
+               for e in ENVS for b in ('spring', 'positional') if e != 'inverted_double_pendulum']
+    for case, r in par.run('harness.drivers.c16', 'rollout', cases64, x64=True, procs=11):
+      traces.append([{k: e.get(k, -1) for k in KEYS} for e in r['events']])
+      errs.append(r.get('err'))
+    cases = cases + cases64
   os.makedirs(tlc.WORK, exist_ok=True)
   tf = os.path.join(tlc.WORK, 'c16.json')
   with open(tf, 'w') as f:
@@ -138,7 +153,7 @@ def run(ctx):
   for i, (case, evs) in enumerate(zip(cases, traces)):
     ctx.traces += 1
     ran = len(evs) > 10
-    ctx.case(key=(case['env'], case['backend']), nontrivial=ran,
+    ctx.case(key=(case['env'], case['backend'], bool(case.get('x64'))), nontrivial=ran,
              sample={'env': case['env'], 'backend': case['backend'], 'events': evs[:3]} if i == 0 else None)
     if (i + 1) in rejected:
       at = rejected[i + 1]
